@@ -65,11 +65,13 @@ Record gpt_layout := {
 Inductive dlayout := MBRLayout (l : mbr_layout) | GPTLayout (l : gpt_layout).
 
 (* ---------------------------------------------------------------- filler *)
-Definition fbyte (o : N) : N := (o * 7 + (o / 256) * 13 + 5) mod 251.
-Fixpoint fill (n : nat) (o : N) : list N :=
-  match n with O => [] | S k => fbyte o :: fill k (N.succ o) end.
+(* byte at image offset o is (7o + 5) mod 251, produced with a small running state *)
+Definition fbyte (o : N) : N := (o * 7 + 5) mod 251.
+Definition fnext (c : N) : N := let c' := c + 7 in if c' <? 251 then c' else c' - 251.
+Fixpoint fill (n : nat) (c : N) : list N :=
+  match n with O => [] | S k => c :: fill k (fnext c) end.
 (* n filler bytes for image offsets o, o+1, ... *)
-Definition fillN (n o : N) : list N := fill (N.to_nat n) o.
+Definition fillN (n o : N) : list N := fill (N.to_nat n) (fbyte o).
 
 (* ---------------------------------------------------------------- MBR images *)
 Definition part_entry (ty first size : N) : list N :=
